@@ -122,7 +122,7 @@ def dmrg_open(cx):
 
     _serial_cotengra()
     rng = cx.rng
-    reps = 1 if cx.quick else 10
+    reps = 4 if cx.quick else 120
     kinds = HAM_KINDS_REAL + HAM_KINDS_CPLX
     caps = ("full", "schedule", "three", "two", "one")
     for kind, bsz, capk, rep in itertools.product(kinds, (1, 2), caps, range(reps)):
@@ -149,7 +149,7 @@ def dmrg_open(cx):
                  cutoffs=str(cut), max_sweeps=nsw, p0=p0k, which=which, rep=rep,
                  # classes of inputs singled out so that known defects can be matched narrowly
                  p0_bond_exceeds_cap=(capk == "one" and p0k.startswith("rand")),
-                 cap_below_phys_dim=(capk == "one"),
+                 cap_below_phys_dim=(capk == "one" or (capk == "two" and d == 3)),
                  L_equals_bsz_with_left_sweep=(L == bsz and "L" in seq))
         cache = {}
 
@@ -350,17 +350,25 @@ def dmrg_open(cx):
 @driver("C10", "dmrgx-and-periodic", chunks=6, timeout=400,
         bound="DMRGX (bsz 1) from a product or low-bond initial state on the same real / complex Hamiltonian families, L 3..7, "
               "caps {4, 8}: energy / variance == dense values of the returned normalised state (up to conjugation), variance "
-              ">= 0, cap; periodic MPO Hamiltonians (MPO_ham_heis / ising / XY / SpinHam1D cyclic, L 4..6, spin-1/2, caps 8..16, "
+              ">= 0, cap; periodic MPO Hamiltonians (MPO_ham_heis / ising / XY / SpinHam1D cyclic, L 4..7, spin-1/2, caps 4 / 8, "
               "DMRG1 and DMRG2, with the documented small-ring options periodic_segment_size = 1, nullspace fudge 1e-6): reported energy "
               "vs dense <psi|H|psi>/<psi|psi> within 1e-4 of the band width, norm within 1e-3, energy >= E0 - 1e-3")
 def dmrgx_pbc(cx):
+    import resource
+
     import quimb as qu
     import quimb.tensor as qtn
 
     _serial_cotengra()
+    # periodic DMRG2 on very small rings asks for tens of GiB (a known defect, see known_findings.d): make such a request fail at once
+    # with MemoryError inside this worker process instead of thrashing the machine
+    try:
+        resource.setrlimit(resource.RLIMIT_AS, (8 << 30, 8 << 30))
+    except Exception:  # noqa
+        pass
     rng = cx.rng
-    reps = 2 if cx.quick else 16
-    for kind, rep in itertools.product(HAM_KINDS_REAL + HAM_KINDS_CPLX[:2], range(reps)):
+    reps = 2 if cx.quick else 30
+    for kind, rep in itertools.product(HAM_KINDS_REAL + HAM_KINDS_CPLX[:2], range(4 * reps)):
         if not cx.mine():
             continue
         if cx.out_of_time():
@@ -419,10 +427,10 @@ def dmrgx_pbc(cx):
         if cx.out_of_time():
             cx.inconclusive.append("dmrgx-and-periodic: time budget exhausted")
             return
-        L = int(rng.integers(4, 7))
+        L = int(rng.integers(4, 8))
         seed = int(rng.integers(1 << 30))
-        cap = (8, 12, 16)[int(rng.integers(3))]
-        p = dict(ham=kind, periodic=True, bsz=bsz, L=L, seed=seed, cap=cap, rep=rep)
+        cap = (4, 8)[int(rng.integers(2))]
+        p = dict(ham=kind, periodic=True, bsz=bsz, L=L, seed=seed, cap=cap, rep=rep, ring_of_at_most_5_sites=(L <= 5))
 
         def t_pbc(kind=kind, bsz=bsz, L=L, seed=seed, cap=cap):
             r = np.random.default_rng(seed)
